@@ -137,6 +137,7 @@ def order(
     all_tasks = False
     n_removed_leaves = 0
     requires_data_task = defaultdict(set)
+    pruned_root_dependents: dict[Key, set[Key]] = {}
 
     while not all_tasks:
         all_tasks = True
@@ -160,6 +161,19 @@ def order(
                     result[leaf] = prio
                 n_removed_leaves += 1
                 leaf_nodes.remove(leaf)
+                # Data nodes that were pruned below and whose dependents have
+                # all been removed as non-task leaves would never be visited.
+                # They have no dependencies; order them right before those leaves.
+                for root in requires_data_task.pop(leaf, ()):
+                    pruned_root_dependents[root].discard(leaf)
+                    if not pruned_root_dependents[root]:
+                        prio = expected_len - len(external_keys) - 1 - n_removed_leaves
+                        if return_stats:
+                            result[root] = Order(prio, -1)
+                        else:
+                            result[root] = prio
+                        if root not in external_keys:
+                            n_removed_leaves += 1
                 for dep in dependencies[leaf]:
                     dependents[dep].remove(leaf)
                     if not dependents[dep]:
@@ -177,6 +191,7 @@ def order(
                 del dependencies[root]
                 root_nodes.remove(root)
                 del dependents[root]
+                pruned_root_dependents[root] = set(deps_root)
                 for dep in deps_root:
                     requires_data_task[dep].add(root)
                     if not dependencies[dep]:
